@@ -10,9 +10,10 @@ import json, os, subprocess, hashlib
 
 # ------------------------------------------------------------------------------------------------------------------------------
 # Which repairs are applied to /repo.  The model follows the code as it stands for every defect NOT listed here.
-# After applying fixes/F6.patch, F7.patch, F8.patch, F9d.patch to /repo set  FIXED = ["F6", "F7", "F8", "F9"]  (any subset works)
-# and flip the corresponding entries of findings/C09.json / findings/C10.json to "fixed".
-FIXED = ["F6", "F7", "F8", "F9"]   # F6 d4fce0c, F7 bac08ce, F8 a79ea45, F9d 788ba4a are in /repo
+# Tokens: F6, F7, F8 = fixes/F6-F8.patch; "F9" = fixes/F9d.patch; "F9a" = fixes/F9.patch (move between unequal allocators);
+# "F9c" = fixes/F9c.patch (POCCA copy assignment between unequal allocators).  Any subset works; keep it in step with /repo and
+# with the status of the entries of findings/C09.json / findings/C10.json.
+FIXED = ["F6", "F7", "F8", "F9", "F9a", "F9c"]   # d4fce0c, bac08ce, a79ea45, 788ba4a (F9d = "F9"), fixes/F9.patch = "F9a", fixes/F9c.patch = "F9c"
 # ------------------------------------------------------------------------------------------------------------------------------
 
 SAN_FLAGS = ["-O0", "-fsanitize=address,undefined", "-fno-sanitize-recover=all"]
@@ -163,7 +164,18 @@ def scan_program(pid, prog, answers):
                     key = f"C08:{r['tag']}:{bad[0]}"
                     out.append((key, f"{r['tag']} without any failure: {bad[1]}", line))
         # ---- C09: operations that need no new storage do not allocate
-        if pid == "C09" and r["tag"] in NO_ALLOC_TAGS and any(e.startswith("a") for e in r["F"]):
+        needs_storage = False   # a move between unequal, non-propagating allocators cannot adopt the block (as for standard containers)
+        try:
+            if r["tag"] == "assign_move" and prev_slots[int(x[2])] and prev_slots[int(x[3])]:
+                needs_storage = (not trait(4)) and (not trait(6)) and prev_slots[int(x[2])][0] != prev_slots[int(x[3])][0]
+            if r["tag"] == "assign_copy/same" and prev_slots[int(x[2])] and prev_slots[int(x[3])]:
+                # POCCA replaces the allocator: storage of an unequal allocator cannot be kept
+                needs_storage = trait(3) and (not trait(6)) and prev_slots[int(x[2])][0] != prev_slots[int(x[3])][0]
+            if r["tag"] == "ctor_move_a" and prev_slots[int(x[3])]:
+                needs_storage = (not trait(6)) and int(x[4]) != prev_slots[int(x[3])][0]
+        except (ValueError, IndexError):
+            pass
+        if pid == "C09" and r["tag"] in NO_ALLOC_TAGS and not needs_storage and any(e.startswith("a") for e in r["F"]):
             out.append((f"C09:{r['tag']}:allocates", f"{r['tag']} allocates although it needs no new storage", line))
         # ---- C08: no write for trivially default-constructible types in sizing constructors
         if pid == "C08" and "pat" in r["extra"] and r["S"] and st == "ok":
